@@ -146,3 +146,8 @@ LEVEL_TEXT = ("Lean theorems: the seen-set scan of ExecDistinct keeps exactly th
 LEVEL_NOTE = ("The Go fingerprint is fmt %#v + SHA-256; that it identifies exactly equal rows is trusted (contract of fmt, collision "
               "freedom) and probed by adversarial strings; the theorem is about the scan for any equivalence-respecting `same`.")
 TECHNIQUE = "Lean 4 proof (induction over the row list with the seen set as invariant) + differential correspondence"
+
+# the text of the functions this property's model mirrors is a regenerated fact (Obligations/PinC06: closed by rfl)
+FACTS = True
+LEAN_TARGETS = list(LEAN_TARGETS) + ["Genql.Obligations.PinC06"]
+THEOREMS = list(THEOREMS) + ["Genql.Obligations.PinC06.pinned_text"]
